@@ -1,10 +1,11 @@
 // Correspondence harness for C18 (HostClient connection pool).
 //
 // Two kinds of cases:
-//   trace  — sequential replay: the harness performs one operation at a time on a real HostClient
-//            (scripted Dial, in-memory conns), lets every goroutine run to its next blocking point
-//            and records the abstract pool state; Coq replays the same ops through the LTS model.
-//   stress — real concurrency and real timers; only summary counters are recorded and judged.
+//
+//	trace  — sequential replay: the harness performs one operation at a time on a real HostClient
+//	         (scripted Dial, in-memory conns), lets every goroutine run to its next blocking point
+//	         and records the abstract pool state; Coq replays the same ops through the LTS model.
+//	stress — real concurrency and real timers; only summary counters are recorded and judged.
 package main
 
 import (
@@ -102,7 +103,7 @@ type manual struct {
 	v        *fasthttp.VerifC18Want
 	enqueued bool
 	done     bool
-	opIdx    int // index of its mdecide op in the emitted list
+	opIdx    int    // index of its mdecide op in the emitted list
 	frozen   string // view at the moment the owner returned (the clientConn is recycled later)
 	tick0    int
 }
@@ -130,6 +131,7 @@ type env struct {
 	ops     []opRec
 	obs     []string
 	feats   map[string]bool
+	broken  bool // the watchdog fired: the trace stops here (goroutines of this case may stay blocked)
 	flagged bool // some observation had live+dials > max while a blocked Close was outstanding
 }
 
@@ -225,6 +227,12 @@ func (e *env) lentCount() int {
 
 // every goroutine is at a blocking point: the books balance and no woken requester is still running
 func (e *env) quiescent() bool {
+	// books first: once they balance, every tryDeliver of the running goroutines has happened ...
+	s := e.hc.VerifC18Snapshot()
+	if s.ConnsCount != len(s.Idle)+e.lentCount()+e.npending()+e.manualUndelivered() {
+		return false
+	}
+	// ... so a requester that was woken is visible as "not waiting, not returned"
 	for k, t := range e.autoThr {
 		if isDone(t) {
 			continue
@@ -234,8 +242,8 @@ func (e *env) quiescent() bool {
 			return false
 		}
 	}
-	s := e.hc.VerifC18Snapshot()
-	return s.ConnsCount == len(s.Idle)+e.lentCount()+e.npending()+e.manualUndelivered()
+	s2 := e.hc.VerifC18Snapshot()
+	return s2.ConnsCount == s.ConnsCount && len(s2.Idle) == len(s.Idle) && len(s2.Wait) == len(s.Wait)
 }
 
 func viewOf(key any, done bool) string {
@@ -270,6 +278,9 @@ func resOf(t *thr) string {
 func (e *env) emit(name, coq string, stuck bool) {
 	if !waitFor(e.quiescent, 2*time.Second) {
 		stuck = true
+	}
+	if stuck {
+		e.broken = true
 	}
 	var rets []string
 	for _, t := range e.threads {
@@ -350,6 +361,9 @@ func (e *env) newQueued() (any, bool) {
 }
 
 func (e *env) opAcq() {
+	if e.broken {
+		return
+	}
 	np := e.npending()
 	t := e.spawnAcquire(0)
 	var key any
@@ -378,6 +392,9 @@ func (e *env) opAcq() {
 }
 
 func (e *env) opAcqShort(ovr bool) {
+	if e.broken {
+		return
+	}
 	if !e.d.Wait || !e.full() {
 		return
 	}
@@ -400,6 +417,9 @@ func (e *env) opAcqShort(ovr bool) {
 }
 
 func (e *env) opDial(k int, okDial bool) {
+	if e.broken {
+		return
+	}
 	e.mu.Lock()
 	if k >= len(e.pending) {
 		e.mu.Unlock()
@@ -439,6 +459,9 @@ func (e *env) takeLent(id int) *held {
 }
 
 func (e *env) opRelease(id int) {
+	if e.broken {
+		return
+	}
 	h := e.takeLent(id)
 	if h == nil {
 		return
@@ -448,6 +471,9 @@ func (e *env) opRelease(id int) {
 }
 
 func (e *env) opClose(id int) {
+	if e.broken {
+		return
+	}
 	h := e.takeLent(id)
 	if h == nil {
 		return
@@ -457,6 +483,9 @@ func (e *env) opClose(id int) {
 }
 
 func (e *env) opCloseBegin(id int) {
+	if e.broken {
+		return
+	}
 	if !e.d.Block {
 		return
 	}
@@ -481,6 +510,9 @@ func (e *env) opCloseBegin(id int) {
 }
 
 func (e *env) opCloseFin(id int) {
+	if e.broken {
+		return
+	}
 	for i, h := range e.blocked {
 		if h.id == id {
 			before := e.live.Load()
@@ -494,11 +526,17 @@ func (e *env) opCloseFin(id int) {
 }
 
 func (e *env) opCloseIdle() {
+	if e.broken {
+		return
+	}
 	e.hc.CloseIdleConnections()
 	e.emit("closeidle", "OCloseIdle", false)
 }
 
 func (e *env) opExpire() {
+	if e.broken {
+		return
+	}
 	if !e.d.Clean {
 		return
 	}
@@ -507,10 +545,14 @@ func (e *env) opExpire() {
 		return
 	}
 	ok := waitFor(func() bool { return len(e.hc.VerifC18Snapshot().Idle) == 0 }, 3*time.Second)
+	waitFor(func() bool { return int(e.live.Load()) <= len(e.lent)+len(e.blocked)+e.manualUndelivered() }, 2*time.Second)
 	e.emit("expire", "OIdleExpire", !ok)
 }
 
 func (e *env) opMDecide() {
+	if e.broken {
+		return
+	}
 	if !e.d.Wait || !e.full() {
 		return
 	}
@@ -532,6 +574,9 @@ func (e *env) manualByWid(w int) *manual {
 }
 
 func (e *env) opMEnqueue(w int) {
+	if e.broken {
+		return
+	}
 	m := e.manualByWid(w)
 	if m == nil || m.enqueued || m.done {
 		return
@@ -542,6 +587,9 @@ func (e *env) opMEnqueue(w int) {
 }
 
 func (e *env) opMCancel(w int) {
+	if e.broken {
+		return
+	}
 	m := e.manualByWid(w)
 	if m == nil || !m.enqueued || m.done {
 		return
@@ -564,6 +612,9 @@ func (e *env) opMCancel(w int) {
 }
 
 func (e *env) opMTake(w int) {
+	if e.broken {
+		return
+	}
 	m := e.manualByWid(w)
 	if m == nil || !m.enqueued || m.done {
 		return
@@ -593,6 +644,9 @@ func (e *env) blockedThreads() int {
 }
 
 func (e *env) doScript(op string) {
+	if e.broken {
+		return
+	}
 	name, arg, _ := strings.Cut(op, ":")
 	n, _ := strconv.Atoi(arg)
 	switch name {
@@ -694,7 +748,7 @@ func (e *env) randomOp(r *rand.Rand) {
 
 // bring the pool to rest: every requester returns, every connection is closed
 func (e *env) drain() {
-	for round := 0; round < 60; round++ {
+	for round := 0; round < 60 && !e.broken; round++ {
 		progress := false
 		for _, m := range e.mans {
 			if m.done {
@@ -710,15 +764,15 @@ func (e *env) drain() {
 			}
 			progress = true
 		}
-		for e.npending() > 0 {
+		for e.npending() > 0 && !e.broken {
 			e.opDial(0, false)
 			progress = true
 		}
-		for len(e.lent) > 0 {
+		for len(e.lent) > 0 && !e.broken {
 			e.opClose(e.lent[0].id)
 			progress = true
 		}
-		for len(e.blocked) > 0 {
+		for len(e.blocked) > 0 && !e.broken {
 			e.opCloseFin(e.blocked[0].id)
 			progress = true
 		}
